@@ -1,6 +1,7 @@
 /-
   Main.lean — line-protocol driver.  One JSON object per input line, one JSON line out.
 -/
+import GqlVerif.Spec.Merge
 import GqlVerif.Driver.Decode
 import GqlVerif.Driver.Render
 import GqlVerif.Driver.ExtOps
@@ -90,9 +91,16 @@ def handle (st : DState) (j : Json) : D (DState × Json) := do
       -- the default plan through the shared context
       let dflt := if only.isSome then [] else (runPlan st.schema d v RuleId.all Stacks.empty).map fun g =>
         Json.arr ((sortStrings (g.map (renderErr st.strings))).map Json.str).toArray
-      pure (st, Json.mkObj [("outcome", "ok"), ("wf", st.schema.WF), ("single", Json.mkObj single),
+      let wantSpec := match j.getObjVal? "mergeSpec" with | .ok (.bool b) => b | _ => false
+      let specFields : List (String × Json) := if wantSpec then
+          [("mergeSpecViolated", Json.bool (Gql.Spec.mergeViolatedB st.schema d)),
+           ("fragmentFree", Json.bool (d.all fun x => match x with
+              | .op o => (recursiveSpreads o.sel).isEmpty | .frag f => (recursiveSpreads f.sel).isEmpty))]
+        else []
+      let base : List (String × Json) := [("outcome", "ok"), ("wf", st.schema.WF), ("single", Json.mkObj single),
         ("mergeStuck", mst.stuck), ("guardHit", mst.guardHit), ("cycleStuck", cst.stuck),
-        ("planGroups", Json.arr dflt.toArray)])
+        ("planGroups", Json.arr dflt.toArray)]
+      pure (st, Json.mkObj (base ++ specFields))
   | "collect" =>
     let d ← document (← field j "doc")
     let parents ← listOf nat (← field j "parents")
